@@ -165,11 +165,21 @@ def audit_axioms(module, theorems):
     return res, out, r.returncode
 
 
-def property_theorems(pid):
-    """theorem names declared in Properties/<pid>.lean (namespace-qualified)."""
-    p = os.path.join(LEAN, "XixiKV", "Properties", pid + ".lean")
-    if not os.path.exists(p):
-        return []
+def property_modules(pid):
+    """Lean modules holding the property theorems of <pid>: Properties/<pid>.lean plus any
+    Properties/<pid><Suffix>.lean (suffix starting with a capital letter, e.g. C01History.lean)."""
+    d = os.path.join(LEAN, "XixiKV", "Properties")
+    mods = []
+    if os.path.exists(os.path.join(d, pid + ".lean")):
+        mods.append(pid)
+    for f in sorted(os.listdir(d)) if os.path.isdir(d) else []:
+        m = re.match(r"^(%s[A-Z]\w*)\.lean$" % re.escape(pid), f)
+        if m:
+            mods.append(m.group(1))
+    return ["XixiKV.Properties." + m for m in mods]
+
+
+def _theorems_of_file(p):
     src = open(p).read()
     src = re.sub(r"/-.*?-/", "", src, flags=re.S)
     ns = []
@@ -187,6 +197,15 @@ def property_theorems(pid):
         m = re.match(r"\s*(?:@\[[^\]]*\]\s*)?(?:private\s+|protected\s+)?theorem\s+([^\s:({\[]+)", line)
         if m:
             names.append(".".join(ns + [m.group(1)]))
+    return names
+
+
+def property_theorems(pid):
+    """theorem names declared in the property modules of <pid> (namespace-qualified)."""
+    names = []
+    for mod in property_modules(pid):
+        p = os.path.join(LEAN, *mod.split(".")) + ".lean"
+        names += _theorems_of_file(p)
     return names
 
 
